@@ -302,6 +302,61 @@ DET_FUNCS = {"MaxConstraint", "MinConstraint", "AbsConstraint", "AndConstraint",
              "PLConstraint", "DivConstraint", "ExpAConstraint"}
 
 
+def tighten_clipped(vars_, cons, D):
+    """Search domains only: an auxiliary variable whose bounds were clipped to +-AUXW gets the bounds that a delivered
+    linear row implies from the (unclipped) bounds of the row's other variables, and is no longer "clipped" on a side
+    whose implied bound lies inside the clip: every value that can satisfy the delivered model is then inside the
+    search domain, so "no witness" is a fact and not an artefact of the clip.  (Interval arithmetic on exact integers;
+    rows with epsilon parts are not used.)"""
+    BIG = 400000000
+    side = [{"lo": v["clipped"] and v["lb"] == -AUXW * D, "hi": v["clipped"] and v["ub"] == AUXW * D} for v in vars_]
+    def fin(i):
+        return not side[i]["lo"] and not side[i]["hi"] and abs(vars_[i]["lb"]) < BIG and abs(vars_[i]["ub"]) < BIG
+    for _ in range(6):
+        changed = False
+        for c in cons:
+            if c.get("k") != "alg" or c.get("quad") or any(t[0][1] != 0 for t in c["lin"]):
+                continue
+            if c["lb"][1] != 0 or c["ub"][1] != 0:
+                continue
+            coef = {}
+            for (a_, _e), v in c["lin"]:
+                coef[v] = coef.get(v, 0) + a_
+            hi = c["ub"][0] * D if abs(c["ub"][0]) < BIG else None
+            lo = c["lb"][0] * D if abs(c["lb"][0]) < BIG else None
+            for v, av in coef.items():
+                if av == 0 or not (side[v]["lo"] or side[v]["hi"]):
+                    continue
+                others = [j for j in coef if j != v]
+                if not all(fin(j) for j in others):
+                    continue
+                mn = sum(min(coef[j] * vars_[j]["lb"], coef[j] * vars_[j]["ub"]) for j in others)
+                mx = sum(max(coef[j] * vars_[j]["lb"], coef[j] * vars_[j]["ub"]) for j in others)
+                new_ub = new_lb = None
+                fl = lambda p_, q_: p_ // q_              # floor(p/q), q > 0
+                ce = lambda p_, q_: -((-p_) // q_)        # ceil(p/q), q > 0
+                if hi is not None:                      # av * x <= hi - mn
+                    r = hi - mn
+                    if av > 0: new_ub = fl(r, av)
+                    else: new_lb = ce(-r, -av)           # x >= r / av  (av < 0)
+                if lo is not None:                      # av * x >= lo - mx
+                    r2 = lo - mx
+                    if av > 0:
+                        cand = ce(r2, av)
+                        new_lb = cand if new_lb is None else max(new_lb, cand)
+                    else:
+                        cand = fl(-r2, -av)              # x <= r2 / av  (av < 0)
+                        new_ub = cand if new_ub is None else min(new_ub, cand)
+                if new_ub is not None and side[v]["hi"] and new_ub <= vars_[v]["ub"]:
+                    vars_[v]["ub"] = new_ub; side[v]["hi"] = False; changed = True
+                if new_lb is not None and side[v]["lo"] and new_lb >= vars_[v]["lb"]:
+                    vars_[v]["lb"] = new_lb; side[v]["lo"] = False; changed = True
+        if not changed:
+            break
+    for i, v in enumerate(vars_):
+        v["clipped"] = side[i]["lo"] or side[i]["hi"]
+
+
 def delivered_record(rec, D, n0):
     """rec: list of recorded events of one conversion.  Returns (record, ng_reason|None)."""
     vars_, cons, objs = [], [], []
@@ -327,6 +382,7 @@ def delivered_record(rec, D, n0):
             ng = ng or str(ex)
             if ev["e"] == "Con":
                 cons.append({"k": "unknown", "type": ev["type"], "mv": 0, "name": ""})
+    tighten_clipped(vars_, cons, D)
     # structural indices for the witness search (ordering heuristic; no semantics)
     n = len(vars_)
     cvars = [set(con_vars(c)) if c["k"] != "unknown" else set() for c in cons]
